@@ -286,7 +286,9 @@ pub fn run_case(shard: &mut Shard, w: &mut World, case: &Case, ctx: &CaseCtx) ->
                 shard.violation_for("C10", format!("succeeded-although:{:?}", class), d);
             } else {
                 shard.count(&format!("nonverdict-mismatch:expected-{:?}-but-succeeded", class));
-                shard.notes.push(format!("non-verdict mismatch {:?} iteration {} shard {}", class, ctx.iteration, ctx.shard));
+                if shard.notes.len() < 10 {
+                    shard.notes.push(format!("non-verdict mismatch {:?} iteration {} shard {}", class, ctx.iteration, ctx.shard));
+                }
             }
         }
         (Outcome::Fail { class, at }, Real::Failure(ec, path, _)) => {
@@ -352,7 +354,9 @@ pub fn run_case(shard: &mut Shard, w: &mut World, case: &Case, ctx: &CaseCtx) ->
                 }
                 _ => {
                     shard.count(&format!("nonverdict-mismatch:unexpected-failure:{}", path));
-                    shard.notes.push(format!("unexpected failure {} iteration {} shard {}", path, ctx.iteration, ctx.shard));
+                    if shard.notes.len() < 3 {
+                        shard.notes.push(format!("unexpected failure {} iteration {} shard {}", path, ctx.iteration, ctx.shard));
+                    }
                 }
             }
         }
